@@ -55,10 +55,10 @@ Definition ftable (fd : Z * list Z) (l : list Z) : Z :=
 
 (* ------------------------------------------------------------------ API level *)
 Inductive jarg :=
-| JSp (fm : fmt) (c : coo Z)        (* a sparse operand (any format) given by its canonical COO form *)
+| JSp (fm : afmt) (c : coo Z)        (* a sparse operand (any format) given by its canonical COO form *)
 | JDn (d : dense Z).                (* ndarray, 0-d array or scalar *)
 
-Definition jfmt (a : jarg) : fmt := match a with JSp fm _ => fm | JDn _ => FOther end.
+Definition jfmt (a : jarg) : afmt := match a with JSp fm _ => fm | JDn _ => AOther end.
 Definition joperand (a : jarg) : operand Z := match a with JSp _ c => OSp c | JDn d => ODn d end.
 Definition jdense (a : jarg) : dense Z := match a with JSp _ c => todense c | JDn d => d end.
 Definition jfill (a : jarg) (q : idx) : Z :=
@@ -85,7 +85,6 @@ Definition fmt_ok (o : ofmt) (a : sarr) : bool :=
   | OutCoo, SCoo _ => true
   | OutDok, SDok _ _ _ => true
   | OutGcxs None, SGcxs _ => true
-  | OutGcxs (Some []), SGcxs _ => true                   (* operands below 2-d: compressed_axes=None *)
   | OutGcxs (Some ca), SGcxs g =>
     match g_shape g with
     | [] | [_] => true                                   (* compressed axes are None below 2-d *)
@@ -127,7 +126,7 @@ Definition judge_api (c : api_case) : Z :=
   match out_format (map jfmt args) with
   | None => match out with SExc ValueError => 0 | _ => 1 end
   | Some ofm =>
-    match elemwise Z Z.eqb 0 (ftable fd) (map joperand args) with
+    match elemwise Z Z.eqb 0 (ftable fd) argsort (map joperand args) with
     | OutErr e => match out with SExc e' => if exc_eqb e e' then 0 else 2 | _ => 2 end
     | OutDense d =>
       match out with
@@ -154,7 +153,7 @@ Definition judge_api (c : api_case) : Z :=
 (* same-shape binary sparse case: the written-out three-mask model equals the general one *)
 Definition judge_elemwise2 (c : (Z * list Z) * coo Z * coo Z) : Z :=
   let '(fd, a, b) := c in
-  match elemwise Z Z.eqb 0 (ftable fd) [OSp a; OSp b] with
+  match elemwise Z Z.eqb 0 (ftable fd) argsort [OSp a; OSp b] with
   | OutSparse r =>
     match c_shape a with
     | [] => 0
